@@ -134,6 +134,7 @@ func c12(r *core.Run) {
 	r.Rule("C12/R1", "release depends on the right things: the gauge->module amount ⊵ {gauge.Start, gauge.End, gauge.Coins, Ctx.BlockTime, balance of the gauge account}; the coin sent is the coin added to the distribution pool")
 	r.Rule("C12/R2", "gauge identity cannot collide silently: the constructor's key depends on a per-creation source beyond {height, end, coins}, or creation is preceded by a lookup of the id")
 	r.Rule("C12/R3", "removed only when drained: each gauge delete on the reward path is behind Empty(balance)=true or follows a transfer of the whole remaining balance")
+	r.Rule("C12/R5", "the release runs on every reward block: each call on the chain block entry -> gauge iteration is control-dependent only on decisions over block height, parameters and constants")
 	r.Rule("C12/R4", "interval: every gauge->module send is behind Before(End, now)=false, Before(End, Start)=false, Equal(End, Start)=false and Empty(balance)=false")
 	bb, _ := p.BlockEntries()
 	var entry *ssa.Function
@@ -216,6 +217,67 @@ func c12(r *core.Run) {
 			u := p.FindUnguarded(fn, []*core.Effect{eff}, g.m, true)
 			r.Check(len(u) == 0, "C12/R4", "gauge:pull-guard:"+g.name, p.InstrPos(bo.Instr), "pull behind "+g.name, "coins can be pulled from a gauge without passing the "+g.name+" test at full time precision (release outside the start–end interval or division by a zero duration)")
 		}
+	}
+	// R5 the release runs on every reward block: along the call chain from the block entry to the function that
+	// iterates the gauges, the next call can be skipped only by decisions on the block height and parameters
+	{
+		chain := p.CallPath(entry, pulls[0].Fn)
+		for len(chain) > 0 && chain[len(chain)-1].Parent() != nil {
+			chain = chain[:len(chain)-1] // iterator callbacks: the pull's own guards are R4
+		}
+		nHop := 0
+		for i := 0; i+1 < len(chain); i++ {
+			f, g := chain[i], chain[i+1]
+			if g.Parent() != nil {
+				continue
+			}
+			nHop++
+			bad := ""
+			found := false
+			allInstrs(f, func(in ssa.Instruction) {
+				cs, ok := in.(ssa.CallInstruction)
+				if !ok {
+					return
+				}
+				hit := false
+				for _, c := range p.Callees(cs) {
+					if c == g {
+						hit = true
+					}
+				}
+				if !hit {
+					return
+				}
+				found = true
+				for _, b := range f.Blocks {
+					ifi, ok := b.Instrs[len(b.Instrs)-1].(*ssa.If)
+					if !ok {
+						continue
+					}
+					skips, reaches := false, false
+					for _, sc := range b.Succs {
+						if blockReachesOrIs(sc, cs.Block()) {
+							reaches = true
+						} else {
+							skips = true
+						}
+					}
+					if !skips || !reaches {
+						continue
+					}
+					for _, a := range p.ProvAt(ifi.Cond, "", ifi).DataAtoms() {
+						if a.Kind != "ctx" && a.Kind != "params" && a.Kind != "const" {
+							bad = p.InstrPos(ifi) + " depends on " + a.String()
+						}
+					}
+				}
+			})
+			if !found {
+				continue
+			}
+			r.Check(bad == "", "C12/R5", "gauge:release-every-reward-block:"+f.Name()+"->"+g.Name(), p.Pos(f.Pos()), "the call is skipped only by schedule decisions (block height, parameters)", "the gauge release can be skipped by a decision on state other than the schedule ("+bad+"): on such reward blocks no tranche is released and expired gauges are dropped undrained later")
+		}
+		r.Floor("C12/R5", nHop, 3, "calls between the block entry and the gauge iteration")
 	}
 	// R3 deletes on the reward path: judged in the function that calls the record deleter directly
 	nDel := 0
@@ -374,4 +436,8 @@ func hasIfs(fn *ssa.Function) bool {
 		}
 	}
 	return false
+}
+
+func blockReachesOrIs(from, to *ssa.BasicBlock) bool {
+	return from == to || blockReaches(from, to)
 }
